@@ -210,3 +210,52 @@ func VP_C06_TorusSDF() {
 	vp.Assert(tor.Contains(c) == (ring2 <= tor.InnerRadius*tor.InnerRadius), "Contains is the closed tube")
 	vp.Reach("end")
 }
+
+// VP_C17_Matrix3: 3x3 matrix kernels for symbolic entries: determinant
+// expansion, inverse in both orders, MulColumnInv, product = composition,
+// transpose, columns; rotation matrices about the coordinate axes are
+// orthogonal with determinant 1 and fix their axis.
+func VP_C17_Matrix3() {
+	m := &Matrix3{}
+	for i := range m {
+		m[i] = vp.Float64("m")
+	}
+	p := vpPoint("p")
+	det := m.Det()
+	vp.Assert(det == m[0]*m[4]*m[8]+m[1]*m[5]*m[6]+m[2]*m[3]*m[7]-m[2]*m[4]*m[6]-m[1]*m[3]*m[8]-m[0]*m[5]*m[7], "Matrix3.Det is the Leibniz expansion")
+	tr := m.Transpose()
+	for i := 0; i < 3; i++ {
+		for j := 0; j < 3; j++ {
+			vp.Assert(tr[3*i+j] == m[3*j+i], "Matrix3.Transpose")
+		}
+	}
+	cols := NewMatrix3Columns(p, vpPoint("q"), vpPoint("r"))
+	vp.Assert(vpEqC(cols.MulColumn(X(1)), p), "NewMatrix3Columns: first column is the image of e1")
+	if vp.Param("part") == 0 {
+		vp.Assume(det != 0)
+		inv := m.Inverse()
+		vp.Assert(vpEqC(inv.MulColumn(m.MulColumn(p)), p), "Matrix3: Inverse * M * p == p")
+		vp.Assert(vpEqC(m.MulColumn(inv.MulColumn(p)), p), "Matrix3: M * Inverse * p == p")
+		vp.Assert(vpEqC(m.MulColumnInv(m.MulColumn(p), det), p), "Matrix3.MulColumnInv inverts MulColumn")
+	} else {
+		m2 := &Matrix3{}
+		for i := range m2 {
+			m2[i] = vp.Float64("n")
+		}
+		vp.Assert(vpEqC(m.Mul(m2).MulColumn(p), m.MulColumn(m2.MulColumn(p))), "Matrix3.Mul is composition")
+		sum := m.Add(m2)
+		vp.Assert(vpEqC(sum.MulColumn(p), m.MulColumn(p).Add(m2.MulColumn(p))), "Matrix3.Add is the pointwise sum")
+		for ai, axis := range []Coord3D{X(1), Y(1), Z(-1)} {
+			rot := NewMatrix3Rotation(axis, vp.Float64("theta"))
+			rtr := rot.Transpose().Mul(rot)
+			id := Matrix3{1, 0, 0, 0, 1, 0, 0, 0, 1}
+			for i := range id {
+				vp.Assert(rtr[i] == id[i], "rotation matrix is orthogonal")
+			}
+			vp.Assert(rot.Det() == 1, "rotation matrix has determinant 1")
+			vp.Assert(vpEqC(rot.MulColumn(axis), axis), "rotation fixes its axis")
+			_ = ai
+		}
+	}
+	vp.Reach("end")
+}
